@@ -135,16 +135,18 @@ PROPS["C03"] = {
 
 MUQ = "NsyncVerif.MuQ."
 PROPS["C02"] = {
-    "imports": ["NsyncVerif.Props.C02"],
+    "imports": ["NsyncVerif.Props.C02", "NsyncVerif.Props.C02Progress"],
     "theorems": [MUQ + t for t in ["C02_try_wait_free", "C02_inv_spin", "C02_inv_spin_queue", "C02_inv_lock", "C02_inv_queue", "C02_inv_hint",
-                 "C02_responsible", "C02_woken_not_lost", "C02_no_stuck_state", "C02_solo_progress_partial"]],
+                 "C02_responsible", "C02_woken_not_lost", "C02_no_stuck_state", "C02_solo_progress_partial",
+                 "C02_solo_progress", "C02_solo_acquire", "C02_solo_release", "C02_thread_enabled", "C02_awake_responsible", "C02_leads_to_wake",
+                 "C02_can_always_complete", "C02_stage_monotone"]],
     "layers": ["muq", "mux"],
     "tie": ["NsyncVerif.Proofs.TieConsts"],
     "oracles": {"stuck", "steplimit", "try-blocked", "panic", "crash"},
     "plan": {"quick": [("core", 200, 8), ("muwait", 60, 6), ("cv", 60, 6), ("cv_rsignal", 40, 6)],
              "thorough": [("core", 2000, 16), ("muwait", 600, 12), ("cv", 600, 12), ("cv_rsignal", 400, 12), ("mixed", 600, 12)]},
-    "level_text": "Kernel-checked theorems over the MuQ model (mu.c lock/rlock/trylock/rtrylock/unlock/runlock/lock_slow/unlock_slow statement by statement: word with interpreted hint bits, waiter queue, per-waiter waiting flag and semaphore, 31 program points, one step per atomic operation; any number of threads; counting and binary semaphores): try-locks are wait-free (at most 3 atomic operations, never a semaphore wait); inductive invariants for spinlock, lock bits, queue and hint bits; every queued sleeper has somebody responsible for waking it (a share holder, a woken thread in flight, or an unlocker mid-scan: C02_responsible); a woken thread's post is never lost (C02_woken_not_lost); and there is NO reachable state in which every thread is idle-holding-nothing or asleep unless nobody is asleep (C02_no_stuck_state). Tied to the code by lockstep replay of harness executions of the real mu.c through the MuQ acceptor (every event: op kind, order, location, expected/new/observed values) plus the global-progress oracle on the real executions, which also runs the full alphabet (mu_wait, cv, wait_n).",
-    "level_note": "Scope of the theorems is the property's own quantifier (core operations on one mutex; a mutex used with mu_wait/cv/wait_n/debug is out of MuQ's scope and covered by lockstep through MuX plus the progress oracle only). 'Eventually returns' = unreachability of stuck states; the fair-termination step (weak fairness, finite interference on CAS loops) is a paper argument. C02_solo_progress is proved for try-locks only (partial). Waiter-pool allocation is an allocator contract.",
+    "level_text": "Kernel-checked theorems over the MuQ model (mu.c lock/rlock/trylock/rtrylock/unlock/runlock/lock_slow/unlock_slow statement by statement: word with interpreted hint bits, waiter queue, per-waiter waiting flag and semaphore, 31 program points, one step per atomic operation; any number of threads; counting and binary semaphores): try-locks are wait-free (at most 3 atomic operations, never a semaphore wait); inductive invariants for spinlock, lock bits, queue and hint bits; every queued sleeper has somebody responsible for waking it (a share holder, a woken thread in flight, or an unlocker mid-scan: C02_responsible); a woken thread's post is never lost (C02_woken_not_lost); and there is NO reachable state in which every thread is idle-holding-nothing or asleep unless nobody is asleep (C02_no_stuck_state); obstruction-freedom with explicit bounds: a thread running alone with the spinlock free completes its acquisition attempt (returns or goes to sleep) within 14 + 3·M own steps and its release within a bound linear in the queue length (C02_solo_progress, C02_solo_acquire, C02_solo_release); every awake thread inside a call has an enabled step (C02_thread_enabled); the leads-to argument in existential-schedule form with an explicit lexicographic ranking: from every reachable state with t asleep there is a finite schedule without barging and without new acquisitions after which t's semaphore has been posted, and one after which every thread is idle holding nothing (C02_leads_to_wake, C02_can_always_complete, C02_stage_monotone). Tied to the code by lockstep replay of harness executions of the real mu.c through the MuQ acceptor (every event: op kind, order, location, expected/new/observed values) plus the global-progress oracle on the real executions, which also runs the full alphabet (mu_wait, cv, wait_n).",
+    "level_note": "Scope of the theorems is the property's own quantifier (core operations on one mutex; a mutex used with mu_wait/cv/wait_n/debug is out of MuQ's scope and covered by lockstep through MuX plus the progress oracle only). 'Eventually returns' is machine-checked as (a) unreachability of stuck states, (b) bounded solo progress and (c) the leads-to argument over a schedule that EXISTS (only the responsible chain moves, holders call unlock — the property's hypothesis); the universally quantified version over all weakly fair schedules is kept as the definition C02_fair_termination_full (with Exec, WeakFair, HoldersRelease, FiniteArrivals, FiniteRcFails defined) and is NOT proved: the route (five-component measure) is written in Props/C02Progress.lean. Two assumptions the formalisation shows to be necessary: finitely many failed CASes on the foreign remove_count word, and finite arrivals (the spinlock is test-and-set; nsync bounds barging on the lock — C14 — not on the spinlock). Waiter-pool allocation is an allocator contract.",
 }
 PROPS["C14"] = {
     "imports": ["NsyncVerif.Props.C14"],
@@ -233,7 +235,8 @@ WN = "WaitN."
 PROPS["C11"] = {
     "imports": ["NsyncVerif.Props.C11", "NsyncVerif.Props.C04Fix"],
     "theorems": [WN + t for t in ["C11_index_ready", "C11_index_ready_first", "C11_timeout", "C11_short_circuit", "C11_cleanup", "C11_cleanup_ret",
-                 "C11_mutex_marks", "C11_mutex", "C11_heap_path", "qinv_of_reachable", "ulife_of_reachable", "dui_of_reachable"]] +
+                 "C11_mutex_marks", "C11_mutex", "C11_heap_path", "C11_no_oversleep", "C11_cleared_accounted", "C11_no_oversleep_token", "C11_sleep_deadline",
+                 "C11_cv_unlinked_by_waker", "inv_of_run", "qinv_of_reachable", "ulife_of_reachable", "dui_of_reachable"]] +
                 ["NsyncVerif.CvFix.C04_outcome", "NsyncVerif.CvFix.C04_waker_unlinked_is_ready"],
     "layers": ["waitn", "cv", "mux"],
     "oracles": {"waitn-ready", "waitn-missed", "early-timeout", "dead-object", "dead-stack", "stuck", "steplimit", "panic", "crash", "exclusion", "exclusion-ann"},
@@ -241,8 +244,8 @@ PROPS["C11"] = {
              "thorough": [("waitn", 1500, 16), ("waitn_rep", 800, 16), ("waitn_cv", 600, 16), ("waitn_f3", 600, 16), ("waitn_mon", 600, 20)]},
     "extra_corpus": ["C13"],
     "harness_args": ["checkplain=1"],
-    "level_text": "Kernel-checked theorems over the WaitN model (wait.c statement by statement together with the enqueue / ready_time / dequeue functions of notes, counters and — as repaired by 3518d42 — condition variables, on-stack and malloc'ed record arrays, any number of callers and wakers): a returned index < count names an object that is ready (note notified or expired, counter zero, cv record unlinked by a waker for this call) and is the FIRST object whose dequeue reported 'no longer enqueued' (C11_index_ready, C11_index_ready_first); count is returned only with the deadline expired and every dequeue reporting 'still enqueued', or on the no-registration fast path with a past deadline (C11_timeout, C11_short_circuit); every registration is removed by its owner before the return and no record is left on any queue or waker's list (C11_cleanup, C11_cleanup_ret); the mutex is released only after registration on all count objects and re-acquired before the return (C11_mutex_marks, C11_mutex); heap bookkeeping balances (C11_heap_path). Tied to the code by lockstep replay of the waitn / waitn_rep / waitn_cv / waitn_f3 families through the WaitN and CvFix acceptors, with implementation-side oracles on every return (index against object state, count against the virtual clock and against objects ready at call time, liveness of every record any thread touches).",
-    "level_note": "NOT proved: 'does not keep sleeping after one becomes ready' (C11_no_oversleep_full is kept as a definition; it needs semaphore-token accounting); on the implementation side it is checked as termination of every explored execution (oracle stuck). malloc failure on the heap path is not handled by wait.c (the model rejects a NULL result; not generated). Sampled correspondence.",
+    "level_text": "Kernel-checked theorems over the WaitN model (wait.c statement by statement together with the enqueue / ready_time / dequeue functions of notes, counters and — as repaired by 3518d42 — condition variables, on-stack and malloc'ed record arrays, any number of callers and wakers): a returned index < count names an object that is ready (note notified or expired, counter zero, cv record unlinked by a waker for this call) and is the FIRST object whose dequeue reported 'no longer enqueued' (C11_index_ready, C11_index_ready_first); count is returned only with the deadline expired and every dequeue reporting 'still enqueued', or on the no-registration fast path with a past deadline (C11_timeout, C11_short_circuit); every registration is removed by its owner before the return and no record is left on any queue or waker's list (C11_cleanup, C11_cleanup_ret); the mutex is released only after registration on all count objects and re-acquired before the return (C11_mutex_marks, C11_mutex); heap bookkeeping balances (C11_heap_path); 'does not keep sleeping after one becomes ready' in safety form (C11_no_oversleep): whenever a caller is at its semaphore wait and an object it is registered on has become ready for it, a token is available (counting and binary flavour), or a waker still owes the V, or a cv signaller is between unlink and clearing `waiting`, or the record is still queued on the ready note / counter whose mutex is held (the notifier is mid-walk), or the P is timed with a deadline that has passed (lazy note expiry) — and every P is issued with the minimum of the call's deadline and the registered notes' expiry times (C11_sleep_deadline). Tied to the code by lockstep replay of the waitn / waitn_rep / waitn_cv / waitn_f3 families through the WaitN and CvFix acceptors, with implementation-side oracles on every return (index against object state, count against the virtual clock and against objects ready at call time, liveness of every record any thread touches).",
+    "level_note": "Everything of the statement is a theorem; 'does not keep sleeping' is proved in its safety form (the disjunction above — the liveness reading needs fairness: paper step) and additionally checked as termination of every explored execution (oracle stuck). In disjunct (D) the holder of the object's mutex is not shown to differ from the caller (threads in foreign code are accepted site-independently). malloc failure on the heap path is not handled by wait.c (the model rejects a NULL result; not generated). Sampled correspondence.",
 }
 
 PROPS["C13"] = {
